@@ -39,7 +39,7 @@ def plan(tier):
                 'name; every 1- and 2-block and a sample of 3-block sequences over 11 SLUGS behaviours) x a request '
                 'sample (valid 1.0/1.2/2.0, undecodable); independent predicate decides whether process_request '
                 'may be entered and with which identity; a cell is (certificate, tls flag, plug-in configuration, request)',
-        'min_monitor': {'cells_checked': 1500, 'engine_entries_observed': 100, 'failing_paths_checked': 800},
+        'min_monitor': {'concurrent_requests_with_their_own_identity': 50, 'cells_checked': 1500, 'engine_entries_observed': 100, 'failing_paths_checked': 800},
         'assumptions': ['the SLUGS service is stubbed behind requests.get (no network): "vouches" = HTTP 200 on the '
                         'user query and on the groups query with a JSON body',
                         'a block with an unsupported plug-in name is ignored by the server; whether it counts as '
@@ -84,6 +84,7 @@ def cases(tier, seed):
     out = []
     for i in range(0, len(cs), 6):
         out.append({'configs': [c[0] for c in cs[i:i + 6]]})
+    out += [{'beside': i} for i in range(8 if tier == 'quick' else 80)]
     return out
 
 
@@ -180,6 +181,8 @@ def flip_cells(ctx, srv, entries, reqs):
 
 
 def run_case(ctx, case):
+    if 'beside' in case:
+        return run_beside(ctx, case)
     import kmip.services.server.auth.slugs as slugs_mod
     real_get = slugs_mod.requests.get
     slugs_mod.requests.get = fake_get
@@ -290,6 +293,97 @@ def run_case(ctx, case):
                         if before != after:
                             ctx.violation('store|' + key, 'store changed on a failing path', detail)
                 ctx.sample({'configs': case['configs'], 'certificates': [c[0] for c in CERTS]})
+            finally:
+                srv.close()
+    finally:
+        slugs_mod.requests.get = real_get
+
+
+def run_beside(ctx, case):
+    """Several sessions at the same moment, each with a certificate of its own (some acceptable, some not), with and without
+    the directory plug-in: every call of request processing carries exactly the identity established by the session it came
+    from, the objects a session creates belong to that identity, and a session whose certificate is refused reaches nothing -
+    whatever the other sessions are doing (threads with yields injected at executed lines of the package)."""
+    import threading
+    import random
+    import kmip.services.server.auth.slugs as slugs_mod
+    from kv.monitors.yields import YieldInjector
+    rng = ctx.rng()
+    rig.install_clock(rig.VClock(step=0))
+    real_get = slugs_mod.requests.get
+    slugs_mod.requests.get = fake_get
+    try:
+        with rig.scratch_dir() as d:
+            srv = rig.Server(d + '/db.sqlite')
+            try:
+                entries = []
+                real = srv.engine.process_request
+
+                def wrapper(request, credential=None):
+                    entries.append((threading.get_ident(), credential))
+                    return real(request, credential)
+                srv.engine.process_request = wrapper
+                plugin = rng.choice((None, 'vouch', 'vouch'))
+                settings = [('auth:slugs', {'enabled': 'True', 'url': 'http://%s/' % plugin})] if plugin else None
+                sessions = []
+                for si, (names, eku) in enumerate(rng.sample([(('alice',), 'client'), (('bob',), 'client'), (('carol',), 'both'), (('dave',), 'server'),
+                                                              (('erin', 'frank'), 'client'), (None, None), (('gina',), 'client')], 4)):
+                    der = rig.make_cert(names, eku) if names else None
+                    frames = []
+                    for j in range(rng.randrange(3, 8)):
+                        v = rng.choice(((1, 0), (1, 2), (2, 0)))
+                        op = rng.choice((op_locate(), op_create(names=['c17b-%d-%d-%d' % (case['beside'], si, j)]), op_query()))
+                        frames.append(rig.encode_request(rig.build_request(v, [op]), v))
+                    ok = names is not None and len(names) == 1 and eku in ('client', 'both')
+                    want = (names[0], GROUPS['vouch'] if plugin else None) if ok else None
+                    sessions.append((der, frames, want))
+                out = {}
+
+                def run(si):
+                    der, frames, want = sessions[si]
+                    out[si] = (threading.get_ident(),) + tuple(rig.session_roundtrip(srv.engine, b''.join(frames), der, enable_tls_client_auth=True,
+                                                                                     auth_settings=settings))
+                threads = [threading.Thread(target=run, args=(si,), daemon=True) for si in range(len(sessions))]
+                with YieldInjector(random.Random(rng.getrandbits(32)), rng.choice((0.02, 0.1, 0.25)), where='/kmip/', tool=5, name='kv-c17'):
+                    for t in threads:
+                        t.start()
+                    for t in threads:
+                        t.join(90)
+                if any(t.is_alive() for t in threads):
+                    ctx.unsure('a session thread of a C17 beside-history did not finish within 90 s')
+                    return
+                ctx.ev()
+                ctx.count('cells_checked')
+                ctx.cell('beside', plugin or 'no-plugin', len(sessions))
+                for si, (der, frames, want) in enumerate(sessions):
+                    tid, sent, esc = out[si]
+                    mine = [(c[0], c[1]) if c else None for t, c in entries if t == tid]
+                    if want is None:
+                        ctx.count('failing_paths_checked')
+                        if mine:
+                            ctx.violation('beside|entered', 'a session whose certificate is not acceptable reached request processing %d times '
+                                          'while other sessions were being served (identities %r)' % (len(mine), mine[:3]), None)
+                        continue
+                    ctx.count('concurrent_requests_with_their_own_identity', len(mine))
+                    if esc is not None or len(sent) != len(frames) or len(mine) != len(frames):
+                        ctx.violation('beside|no-response', 'a session with an acceptable certificate got %d answers to %d requests and reached '
+                                      'request processing %d times (%r)' % (len(sent), len(frames), len(mine), esc), None)
+                        continue
+                    bad = [m for m in mine if m != want]
+                    if bad:
+                        ctx.violation('beside|identity', 'request processing received %r for a session whose established identity is %r' % (bad[0], want), None)
+                # what the sessions created belongs to the identity of the session that asked for it
+                names_owner = {}
+                dmp = srv.dump()
+                owner_of = {r[0]: r[8] for r in dmp.get('managed_objects', [])}
+                for r in dmp.get('managed_object_names', []):
+                    names_owner[r[2]] = owner_of.get(r[1])
+                for si, (der, frames, want) in enumerate(sessions):
+                    for nm, ow in names_owner.items():
+                        if isinstance(nm, str) and nm.startswith('c17b-%d-%d-' % (case['beside'], si)):
+                            ctx.count('owners_of_created_objects_checked')
+                            if want is None or ow != want[0]:
+                                ctx.violation('beside|owner', 'the object %r created through session %d (identity %r) is owned by %r' % (nm, si, want, ow), None)
             finally:
                 srv.close()
     finally:
